@@ -1,0 +1,80 @@
+//go:build verif
+
+package l4proxy
+
+import (
+	"sync/atomic"
+
+	"github.com/caddyserver/caddy/v2"
+)
+
+// Exports for the runtime-verification harness (build tag "verif"): white-box
+// construction of upstream pools with chosen peer state, and read access to
+// the counters of the global peer pool. Nothing here is compiled without the tag.
+
+// VerifPeerState is the observable state of one peer.
+type VerifPeerState struct {
+	NumConns  int32
+	Unhealthy int32
+	Fails     int32
+}
+
+// VerifNewUpstream builds an Upstream that is not registered in the global
+// peer pool. maxFails <= 0 means no passive health-check policy.
+func VerifNewUpstream(dial []string, maxConns, maxFails int, states []VerifPeerState) *Upstream {
+	u := &Upstream{Dial: dial, MaxConnections: maxConns}
+	if maxFails > 0 {
+		u.healthCheckPolicy = &PassiveHealthChecks{MaxFails: maxFails}
+	}
+	for i, st := range states {
+		addr := "verif-peer"
+		if i < len(dial) {
+			addr = dial[i]
+		}
+		na, _ := caddy.ParseNetworkAddress(addr)
+		u.peers = append(u.peers, &peer{numConns: st.NumConns, unhealthy: st.Unhealthy, fails: st.Fails, address: na})
+	}
+	return u
+}
+
+// VerifSetPeerState overwrites the state of peer i of u.
+func VerifSetPeerState(u *Upstream, i int, st VerifPeerState) {
+	p := u.peers[i]
+	atomic.StoreInt32(&p.numConns, st.NumConns)
+	atomic.StoreInt32(&p.unhealthy, st.Unhealthy)
+	atomic.StoreInt32(&p.fails, st.Fails)
+}
+
+// VerifPeerStates reads the state of all peers of u.
+func VerifPeerStates(u *Upstream) []VerifPeerState {
+	out := make([]VerifPeerState, len(u.peers))
+	for i, p := range u.peers {
+		out[i] = VerifPeerState{
+			NumConns:  atomic.LoadInt32(&p.numConns),
+			Unhealthy: atomic.LoadInt32(&p.unhealthy),
+			Fails:     atomic.LoadInt32(&p.fails),
+		}
+	}
+	return out
+}
+
+// VerifPoolPeer reads the counters of the peer registered in the global pool
+// under the given dial address (as written in the configuration).
+func VerifPoolPeer(dialAddr string) (VerifPeerState, bool) {
+	var st VerifPeerState
+	var found bool
+	peers.Range(func(key, value any) bool {
+		if key == dialAddr {
+			p := value.(*peer)
+			st = VerifPeerState{
+				NumConns:  atomic.LoadInt32(&p.numConns),
+				Unhealthy: atomic.LoadInt32(&p.unhealthy),
+				Fails:     atomic.LoadInt32(&p.fails),
+			}
+			found = true
+			return false
+		}
+		return true
+	})
+	return st, found
+}
